@@ -81,11 +81,12 @@ var propertyClauses = map[string]clauseInfo{
 			"NextBlock: every run of bytes cut off inside the blank-line loop is space/tab/CR/LF only and one line long; the block handed out starts exactly (unpadded length, line endings) of all bytes cut after the parser's previous position; EndOffset >= StartOffset and the parser's offset equals EndOffset afterwards, so ranges of successive blocks are ordered and do not overlap",
 			"Parse / NewBlockParser: the line counter starts at 1 and the offset at 0; in Parse end-of-input is latched from the start, so the buffer is never refilled or rewritten",
 			"lineCount, nullCount, unpaddedNullLength, isBlankLine: exact contracts",
+			"fillNulls: in a buffer whose zero bytes come in complete aligned triples, the zero at index k becomes byte (number of zeros before k) mod 3 of EF BF BD and every non-zero byte is kept (lemma ZTriples_back by induction)",
 		},
 		notDecided: []string{
 			"assumption A-C01-1: a closed top-level block ends inside the scanned part of the buffer at a line boundary (set by the block-structure code, which is abstracted in NextBlock)",
 			"assumption A-C01-2: when the last pending block is handed out, the rest of the line in progress is blank (the first cut of NextBlock drops it unexamined)",
-			"fillNulls has only a frame contract: that each aligned zero triple becomes EF BF BD (Source equals the input with NUL replaced by U+FFFD) is not decided",
+			"that the buffer handed to fillNulls has its zero bytes in complete aligned triples (ZTriples: follows from padNulls' image postcondition and the cuts at line boundaries) is not proved; fillNulls' functional contract is conditional on it, so 'Source equals the input with NUL replaced by U+FFFD' is decided per function, not end to end",
 			"the composition over a whole document (a ghost model of the input stream relating every block to absolute offsets) is argued from the per-call contracts, not generated",
 		},
 	},
@@ -195,11 +196,13 @@ var propertyClauses = map[string]clauseInfo{
 		decided: []string{
 			"filterRaw (clause 1): the bytes appended are the input with some '<' replaced by \"&lt;\" — every append copies the next unaccounted run of the input or emits \"&lt;\" for one '<', and the whole input is accounted for at the end (ghost coverage counter, lemma L-tiling)",
 			"filterRaw (O1): a '<' is escaped exactly when the predicate was asked about the maximal, lower-cased tag name that follows it and rejected it; every '<' met in copy state that does not open a comment, CDATA section or declaration is put to the predicate",
+			"filterRaw (O2-O5, two-state loop obligations on the scanner's own state variable): a '<' followed by neither a letter nor '/', '!', '?' is text and nothing after it is skipped (O2); after any other '<' in copy state that does not open a comment, CDATA section or declaration the scanner is back in copy state no later than right after the first '>' (O5); a comment ends at '-->' or '--!>' and at once when its text starts with '>' or '->' (O3); CDATA and declarations end at the first '>' (O4); inside a skipped construct the scanner examines every byte. These failed on the pinned tree for '<3 <script>', '<!-->', '<![CDATA[ > ...' (fixed: 8f27adc)",
 			"openTagAttr/openTag: the renderer's own start tags are put to the predicate with the atom's name and escaped exactly when it rejects; closeTag emits the tag with or without its '<' escaped",
 			"htmlTagNameEnd, maybeLower, toLowerASCII: exact contracts; FilterTagGFM rejects exactly the nine raw-text element names",
 		},
 		notDecided: []string{
-			"O2-O5 of DESIGN 7.17 (the filter's skip regions for comments, CDATA, declarations end no later than the HTML tokenizer's) and the tokenizer lemma L-C17 are not generated; '<!-->', '<![CDATA[ > ...' and '<3 <script>' are therefore not decided by this check",
+			"the tokenizer lemma L-C17 (DESIGN 7.17: O1-O5 imply that an HTML tokenizer reading the output sees no rejected start tag) is a paper proof over the WHATWG data-state rules, not machine-checked; O2-O5 are the per-iteration facts about the real scanner it needs",
+			"attribute values: after a tag the scanner resumes at the first '>' even inside a quoted attribute value, which is earlier than the tokenizer (the safe direction); that the tokenizer cannot then be inside a tag where the filter sees text is part of L-C17",
 			"the literal <br> of hard line breaks is not routed through the predicate (O6)",
 		},
 	},
